@@ -224,8 +224,17 @@ def assembler(ctx):
     r3.check(g[1] == "%s.local2global.ravel()[%s[1]]" % (Dc, callc), "cols", SPA, fs.name, sink[0].lineno, "sparse cols = " + g[1][:90], "cols are `%s`" % g[1][:200])
     ev = "(" + "*".join(sorted(["%s[2]" % callc, "%s.local_multipliers.ravel()[%s[1]]" % (Dc, callc), "%s.local_multipliers.ravel()[%s[0]]" % (DTc, callc)])) + ")"
     r3.check(g[2] == ev, "values", SPA, fs.name, sink[0].lineno, "sparse values = " + g[2][:90], "values are `%s`" % g[2][:300])
-    src = unparse(fs).replace(" ", "")
-    r3.check("ifdomain.requires_dof_transformation:\nmat=mat@domain.dof_transformation".replace("\n", "") in src.replace("\n", ""), "domain transformation", SPA, fs.name, fs.lineno,
-             "sparse domain dof_transformation", "the domain dof transformation is not applied on the right")
-    r3.check("ifdual_to_range.requires_dof_transformation:\nmat=dual_to_range.dof_transformation.T@mat".replace("\n", "") in src.replace("\n", ""), "dual transformation", SPA, fs.name, fs.lineno,
-             "sparse dual dof_transformation", "the dual_to_range dof transformation is not applied transposed on the left")
+    rets = [s for s in ast.walk(fs) if isinstance(s, ast.Return) and s.value is not None]
+    names = [n.id for n in ast.walk(rets[-1].value) if isinstance(n, ast.Name)] if rets else []
+    M = next((n for n in names if any(isinstance(s, ast.Assign) and unparse(s.targets[0]) == n for s in ast.walk(fs))), None)
+    if M is None:
+        raise AnalysisError("SparseAssembler.assemble: returned matrix variable not found")
+    St = [s for s in roles.stores(fs.body, ds, keep={M}, lv=False) if s.op == "=" and isinstance(s.tnode, ast.Name) and s.tnode.id == M and s.guards]
+    got = {(s.guards, s.value) for s in St}
+    want_d = (((Dc + ".requires_dof_transformation", True),), "(%s@%s.dof_transformation)" % (M, Dc))
+    want_t = (((DTc + ".requires_dof_transformation", True),), "(%s.dof_transformation.T@%s)" % (DTc, M))
+    r3.check(want_d in got, "domain transformation", SPA, fs.name, fs.lineno, "sparse domain dof_transformation",
+             "the domain dof transformation is not applied on the right when the domain space requires it (guarded updates: %s)" % sorted(v for _, v in got))
+    r3.check(want_t in got, "dual transformation", SPA, fs.name, fs.lineno, "sparse dual dof_transformation",
+             "the dual_to_range dof transformation is not applied transposed on the left when the dual space requires it (guarded updates: %s)" % sorted(v for _, v in got))
+    r3.check(len(got) == 2, "no other guarded update", SPA, fs.name, fs.lineno, "sparse matrix updates", "unexpected conditional updates of the assembled matrix: %s" % sorted(v for _, v in got))
